@@ -433,6 +433,21 @@ fn erase_once(rng: &mut Rng, prog: &[Value], c: &mut EraseCounts) {
                 let h = held(&slots, w);
                 judge(c, w, h);
             }
+            "drop_unwind" => {
+                // the handle is owned by a frame that a panic unwinds through: its destructor runs while the thread is panicking
+                let l = slots[i].take().expect("drop of empty slot");
+                let (o, e, w) = (l.obj, l.expect, l.watch);
+                alloc::capture_start();
+                let r = catch_unwind(AssertUnwindSafe(move || {
+                    let _owned_by_this_frame = o;
+                    std::panic::panic_any("unwinding through the owner of a key");
+                }));
+                alloc::capture_stop();
+                assert!(r.is_err());
+                c.leaked_blocks += alloc::captured_containing(&e) as u64;
+                let h = held(&slots, w);
+                judge(c, w, h);
+            }
             "drop2" => {
                 // two handles dropped by two threads at the same moment
                 let j = ju64(st, "src") as usize;
